@@ -32,28 +32,43 @@ def run(ctx):
     M = "engine::core::event::event_id::"
 
     def a(inst):
-        b = F.fn("worker::on_store")
+        # the id is assigned in the shard worker today; a refactor may move it down the ingest path - wherever it lives, it must come
+        # before every consumer of the event on that path (the WAL entry, the WAL append, the memtable insert)
+        hosts = []
+        for nm in ("worker::on_store", "insert::insert_and_maybe_flush"):
+            b_ = F.fn(nm)
+            if b_.find_calls(r"EventId::is_zero$"):
+                hosts.append((nm, b_))
+        if len(hosts) != 1:
+            raise AnchorMissing("exactly one id-assignment site (is_zero -> next_event_id -> set_event_id) on the store path, found %s" % [h[0] for h in hosts])
+        nm, b = hosts[0]
         z = one(b, r"EventId::is_zero$")
         nid = one(b, r"ShardContext::next_event_id$")
         sid = one(b, r"Event::set_event_id$")
-        ins = one(b, r"insert::insert_and_maybe_flush$")
-        inst.sites = [sp(b, x.bb) for x in (z, nid, sid, ins)]
+        SINK = r"insert::insert_and_maybe_flush$|WalEntry::from_event$|WalHandle::append$|MemTable::insert$|MemTable::insert_batch$"
+        sinks = [c_ for c_ in b.find_calls(SINK)]
+        if not sinks:
+            raise AnchorMissing("a consumer of the event (insert_and_maybe_flush / WalEntry::from_event / WalHandle::append / MemTable::insert) in %s" % nm)
+        if nm != "worker::on_store":
+            # on_store must hand the event straight to the host
+            one(F.fn("worker::on_store"), r"insert::insert_and_maybe_flush$")
+        inst.sites = ["id assigned in %s" % nm] + [sp(b, x.bb) for x in (z, nid, sid)] + ["%s @ %s" % (x.nname.split("::")[-1], sp(b, x.bb)) for x in sinks]
         bad = []
         cut = bool_result_edge(b, z, False) + [(sid.bb, sid.to)]
-        bad += must_cross(b, ins.bb, cut_edges=cut, key="store-without-id", detail="an event with a zero id can reach the memtable")
+        for ins in sinks:
+            bad += must_cross(b, ins.bb, cut_edges=cut, key="consumed-without-id:%s" % ins.nname.split("::")[-1], detail="an event whose id is still zero can reach %s (WAL and store would then disagree on the id, and recovery mints a new one)" % ins.nname.split("::")[-1])
         te = bool_result_edge(b, z, True)
         if not any(b.dominates_edge(e, sid.bb) for e in te):
-            bad.append(("id-overwritten", "on_store assigns a new id although the event already has one", None))
+            bad.append(("id-overwritten", "%s assigns a new id although the event already has one" % nm, None))
         if not any(l[0] == "call" and "next_event_id" in l[1] for l in b.origins(sid.args[1])):
             bad.append(("id-origin", "the id assigned is not ShardContext::next_event_id() (%s)" % fmt_leaves(b.origins(sid.args[1])), None))
-        # same event: is_zero / set_event_id / insert operate on the same local
-        le = b._origin_locals(ins.args[0])
-        if not (b._origin_locals(sid.args[0]) & le) or not (b._origin_locals(z.args[0], depth=10) & (le | b._origin_locals(sid.args[0]))):
-            ev = {b.local_name(x) for x in le}
-            if "event" not in ev:
-                bad.append(("other-event", "the event stored is not the one that received the id", None))
+        # same event: is_zero / set_event_id / the consumers operate on the same local
+        for ins in sinks:
+            le = b._origin_locals(ins.args[0]) | wide_all(b, ins.args[0])
+            if not (b._origin_locals(sid.args[0]) & le):
+                bad.append(("other-event:%s" % ins.nname.split("::")[-1], "the event handed to %s is not the one that received the id" % ins.nname.split("::")[-1], None))
         return bad
-    ctx.run("C18.a", "K2 CUT", "worker::on_store", "every applied event has a generated (or replayed) non-zero id", a)
+    ctx.run("C18.a", "K2 CUT", "store path (worker::on_store / insert_and_maybe_flush)", "every applied event has a generated (or replayed) non-zero id", a)
 
     def b1(inst):
         b = F.fn("EventIdGenerator::next")
